@@ -71,10 +71,19 @@ pub fn dwarf_seed(enc: Enc, r: &mut Rng) -> Option<Secs> {
     let sub = unit.add(root, gimli::DW_TAG_subprogram);
     let mut fb = write::Expression::new();
     fb.op_reg(Register(7));
-    let ranges = unit.ranges.add(write::RangeList(vec![
-        write::Range::StartLength { begin: Address::Constant(base), length: 8 },
-        write::Range::StartEnd { begin: Address::Constant(base + 0x10), end: Address::Constant(base + 0x18) },
-    ]));
+    // before v5 a unit with a non-zero low_pc can only hold offset pairs / base selections
+    let ranges = unit.ranges.add(write::RangeList(if enc.version >= 5 {
+        vec![
+            write::Range::StartLength { begin: Address::Constant(base), length: 8 },
+            write::Range::StartEnd { begin: Address::Constant(base + 0x10), end: Address::Constant(base + 0x18) },
+        ]
+    } else {
+        vec![
+            write::Range::OffsetPair { begin: 0, end: 8 },
+            write::Range::BaseAddress { address: Address::Constant(base + 0x10) },
+            write::Range::OffsetPair { begin: 0, end: 8 },
+        ]
+    }));
     let mut loc_expr = write::Expression::new();
     loc_expr.op_fbreg(-8);
     loc_expr.op_deref();
@@ -84,10 +93,18 @@ pub fn dwarf_seed(enc: Enc, r: &mut Rng) -> Option<Secs> {
     loc_expr2.op_constu(0x1234);
     loc_expr2.op(gimli::DW_OP_plus);
     loc_expr2.op(gimli::DW_OP_stack_value);
-    let locs = unit.locations.add(write::LocationList(vec![
-        write::Location::StartLength { begin: Address::Constant(base), length: 4, data: loc_expr.clone() },
-        write::Location::StartEnd { begin: Address::Constant(base + 4), end: Address::Constant(base + 12), data: loc_expr2 },
-    ]));
+    let locs = unit.locations.add(write::LocationList(if enc.version >= 5 {
+        vec![
+            write::Location::StartLength { begin: Address::Constant(base), length: 4, data: loc_expr.clone() },
+            write::Location::StartEnd { begin: Address::Constant(base + 4), end: Address::Constant(base + 12), data: loc_expr2 },
+        ]
+    } else {
+        vec![
+            write::Location::OffsetPair { begin: 0, end: 4, data: loc_expr.clone() },
+            write::Location::BaseAddress { address: Address::Constant(base + 4) },
+            write::Location::OffsetPair { begin: 0, end: 8, data: loc_expr2 },
+        ]
+    }));
     {
         let e = unit.get_mut(sub);
         e.set(gimli::DW_AT_name, AttributeValue::String(b"func".to_vec()));
